@@ -204,8 +204,11 @@ func CreateCertificate(template, parent *Certificate, publicKey *sm2.PublicKey, 
 		return nil, err
 	}
 
+	// the template is an input: work on a shallow copy instead of storing the issuer's key id in it
 	if !bytes.Equal(asn1Issuer, asn1Subject) && len(parent.SubjectKeyId) > 0 {
-		template.AuthorityKeyId = parent.SubjectKeyId
+		tmpl := *template
+		tmpl.AuthorityKeyId = parent.SubjectKeyId
+		template = &tmpl
 	}
 
 	extensions, err := buildExtensions(template)
